@@ -152,14 +152,17 @@ Theorem C04_example_far :
   read_values ex_far = [BV (VPtr (Ok (B_ptr 62))); BV (VNum (Ok 258))] /\
   valid_message segs = VOk.
 Proof. exact ex_far_pointer. Qed.
+Print Assumptions C04_example_far.
 Theorem C04_example_double_far :
   let segs := last_dump ex_dfar in
   pointerType (le_decode (firstn 8 (skipn 8 (nth 0 segs [])))) = doubleFarPointer /\
   read_values ex_dfar = [BV (VPtr (Ok (B_ptr 62))); BV (VNum (Ok 258))] /\
   valid_message segs = VOk.
 Proof. exact ex_double_far_pointer. Qed.
+Print Assumptions C04_example_double_far.
 Theorem C04_example_place_pre : place_pre ex_before 0 8 1 0 4294967296.
 Proof. exact ex_place_pre. Qed.
+Print Assumptions C04_example_place_pre.
 
 (* ------------------------------------------------------------------ read back over the object table *)
 (* For the states the pointer-level invariant [hinv] describes (reachable states of the C05
@@ -330,3 +333,117 @@ Theorem C04_run_last_pointer_wins : forall e st1 objs pads ops q ht raw oldlen p
   p = handle_of ht depth.
 Proof. exact run_last_pointer_wins. Qed.
 Print Assumptions C04_run_last_pointer_wins.
+
+(* ------------------------------------------------------------------ establishment and serialisation *)
+From CV Require Import Core.HeapMarshal.
+From CV Require Frame.Frame.
+
+(* [T28] the premise [sinv] of T24-T27 is established: for every arena configuration with a root
+   word, every source message (bytes 0..255) and every program, every state the interpreter
+   reaches (fewer than 2^32 segments) satisfies it *)
+Theorem C04_reachable_sinv : forall a cfgd cfgs ncaps fuel src ops m,
+  arena_spec_wf a -> root_cap_ok a -> create a (init_rlimit cfgd) = Ok m -> sub_prog ops = true ->
+  msg_ok src -> cfg_strict cfgs = true ->
+  let st0 := mkBSt (mkW m src (init_rlimit cfgs)) [] in
+  dst_run (mkEnv cfgd cfgs ncaps fuel) st0 ops ->
+  Forall seg_bound (bstates (mkEnv cfgd cfgs ncaps fuel) st0 ops) ->
+  Forall (fun st => exists objs pads, sinv st objs pads) (bstates (mkEnv cfgd cfgs ncaps fuel) st0 ops).
+Proof. exact heap_inv_sublang. Qed.
+Print Assumptions C04_reachable_sinv.
+
+(* [T29] serialisation, unpacked paths: the segments of every state the invariant describes (at
+   most 2^30 - 1 segments) meet the premises of C14's frame theorems (C14_unmarshal_roundtrip,
+   C14_encode_is_marshal): Marshal succeeds, the Encoder writes the same bytes, and Unmarshal -
+   also with trailing bytes - returns exactly the segments, hence the same reads (T19 is a
+   statement about [bm_data]).  The packed paths and the stream Decoder (C14
+   all_paths_same_segments) additionally need every byte in 0..255: T33 / T34 below. *)
+Theorem C04_marshal_roundtrip_states : forall m objs pads, hinv m objs pads -> nsegs m <= 1073741823 ->
+  exists b, Frame.marshal (bm_data m) = Frame.Ok b /\ Frame.encode true (bm_data m) = Frame.Ok b /\
+            Frame.unmarshal b = Frame.Ok (bm_data m) /\ forall junk, Frame.unmarshal (b ++ junk) = Frame.Ok (bm_data m).
+Proof. exact marshal_roundtrip_states. Qed.
+Print Assumptions C04_marshal_roundtrip_states.
+
+(* ------------------------------------------------------------------ the success half of the pointer read-back *)
+(* T18, T19, T23, T27 have the shape "if readPtr returns a handle, it is the right one"; these two
+   say that it does return one. *)
+
+(* [T30] with a non-zero depth limit and a read limit that covers the object, Segment.readPtr on
+   a pointer that resolves to table object [h] (struct, list of any kind incl. composite lists)
+   returns the handle of [h] and charges exactly [read_cost h] *)
+Theorem C04_read_object_total : forall strict (ms : segs) rl sid off h raw depth,
+  resolves_to ms sid off (p_seg h) (obj_start h) raw ->
+  p_valid h = true -> good ms h -> tag_ok ms h -> raw_of h = Ok raw ->
+  (p_kind h = KStruct -> os_isZero (p_size h) = false) ->
+  seg_len ms (p_seg h) <= 4294967288 -> depth <> 0 -> read_cost h <= rl ->
+  readPtr strict ms rl sid (nth (Z.to_nat sid) ms []) off depth = (Ok (handle_of h depth), rl - read_cost h).
+Proof. exact read_resolved_total. Qed.
+Print Assumptions C04_read_object_total.
+
+(* [T31] in every state the invariant describes: with depth limit <> 0 and a read limit that
+   covers every table object, Segment.readPtr at ANY pointer slot of any table object or at the
+   root succeeds - null handle, the inline empty struct, the handle of the table object whose
+   words the slot holds (charging its size), or the capability handle with the stored index
+   (capability read-back) *)
+Theorem C04_read_slot_total : forall strict m objs pads q rl depth,
+  hinv m objs pads -> In q ((0, 0) :: flat_map slots objs) ->
+  depth <> 0 -> 0 <= rl -> (forall h, In h objs -> read_cost h <= rl) ->
+  exists p rl', readPtr strict (bm_data m) rl (fst q) (nth (Z.to_nat (fst q)) (bm_data m) []) (snd q) depth = (Ok p, rl') /\
+    (p = nullPtr /\ rl' = rl \/ p = empty_handle q depth /\ rl' = rl \/
+     (exists h, In h objs /\ p = handle_of h depth /\ rl' = rl - read_cost h) \/
+     (exists idx, 0 <= idx < 4294967296 /\ p = mkPtr true (fst q) 0 idx (mkOS 0 0) 0 KIface false false false /\ rl' = rl)).
+Proof. exact read_slot_total. Qed.
+Print Assumptions C04_read_slot_total.
+
+(* [T32] text / data read-back: NewData(v) / NewTextFromBytes(v) in any arena, then Ptr.Data() /
+   Ptr.Text() on the bytes of the new message return what was written (for a text: v, and the
+   data view shows the terminating NUL) *)
+Theorem C04_new_bytes_read_back : forall m sid v nul m' p,
+  inv m -> 0 <= sid < nsegs m -> zlen v < 536870911 ->
+  newBytes m sid v nul = Ok (m', p) ->
+  ptr_data (bm_data m') p = Ok (Some (if nul then v ++ [0] else v)) /\
+  (nul = true -> ptr_text (bm_data m') p = Ok (Some v)).
+Proof. exact new_bytes_read_back. Qed.
+Print Assumptions C04_new_bytes_read_back.
+
+(* ------------------------------------------------------------------ every serialisation path *)
+From CV Require Import Core.HeapBytes Core.HeapPaths.
+From CV Require Packed.Packed Frame.FramePacked Frame.FrameProofs Frame.FrameStream.
+
+(* [T33] the bytes invariant: in every state of every program of the sub-language (sub_prog
+   requires the argument of NewData / NewTextFromBytes to be bytes) every element of every segment
+   of the message under construction, and of the source message, is in 0..255 ([mb], [wb]:
+   Forall bytes_ok).  No premise besides the source being a message of bytes. *)
+Theorem C04_bytes_inv_sublang : forall a cfgd cfgs ncaps fuel src ops m,
+  create a (init_rlimit cfgd) = Ok m -> sub_prog ops = true -> msg_ok src ->
+  Forall (fun st => Forall bytes_ok (bm_data (w_dst (st_w st))) /\ Forall bytes_ok (w_src (st_w st)))
+         (bstates (mkEnv cfgd cfgs ncaps fuel) (mkBSt (mkW m src (init_rlimit cfgs)) []) ops).
+Proof. exact bytes_inv_sublang. Qed.
+Print Assumptions C04_bytes_inv_sublang.
+
+(* [T34] "same tree after Marshal/Unmarshal, packed, Encoder/Decoder" at the segment level, for
+   builder states: a state of the table invariant (T28: every reachable state) whose bytes are
+   bytes (T33: every reachable state), with at most 512 segments (the stream Decoder's limit) and a
+   frame within the Decoder's size limit [mx]: Marshal, the Encoder, MarshalPacked, the packed
+   Encoder succeed, and Unmarshal, UnmarshalPacked and the stream Decoders - plain over ANY
+   chunking of the bytes, packed over any reader behaviour [orc] - return exactly the segments of
+   the built message; every read (T16-T31 are statements about [bm_data]) is therefore the same
+   on the decoded message.  Composition with C14 / C13's all_paths_same_segments.  Not modelled:
+   Marshal's own loading of the segments from the arena (message.go). *)
+Theorem C04_all_paths_states : forall m objs pads mx,
+  hinv m objs pads -> Forall bytes_ok (bm_data m) -> nsegs m <= 512 -> FrameStream.max_ok mx ->
+  Frame.len (FrameProofs.frame (bm_data m)) <= Frame.eff_max mx ->
+  let segs := bm_data m in
+  exists b p pe,
+    Frame.marshal segs = Frame.Ok b /\ Frame.encode true segs = Frame.Ok b /\
+    FramePacked.marshal_packed segs = Frame.Ok p /\ Frame.encode_packed true segs = Frame.Ok pe /\
+    Frame.unmarshal b = Frame.Ok segs /\
+    FramePacked.unmarshal_packed p = Frame.Ok segs /\
+    (forall cs hc bc ru, concat cs = b ->
+       exists st' log, Frame.decode1 (Frame.mkD (Frame.mkReader cs Packed.EOF) hc bc ru mx) = (st', Frame.DMsg segs, log)) /\
+    (forall orc hc bc ru,
+       exists st' log, FramePacked.pdecode1 (Frame.mkD (FramePacked.p_init orc pe) hc bc ru mx) = (st', Frame.DMsg segs, log)) /\
+    FramePacked.unmarshal_packed pe = Frame.Ok segs /\
+    (forall orc hc bc ru,
+       exists st' log, FramePacked.pdecode1 (Frame.mkD (FramePacked.p_init orc p) hc bc ru mx) = (st', Frame.DMsg segs, log)).
+Proof. exact all_paths_states. Qed.
+Print Assumptions C04_all_paths_states.
